@@ -234,8 +234,35 @@ def run(stmts, env):
                                        ev(st.value, env))
         elif isinstance(st, ast.If):
             run(st.body if ev(st.test, env) else st.orelse, env)
+        elif isinstance(st, ast.While) and not st.orelse:
+            n = 0
+            while ev(st.test, env):
+                run(st.body, env)
+                n += 1
+                if n > 10000:
+                    raise Unknown("loop does not terminate on the sample")
+        elif isinstance(st, ast.Return):
+            raise Returned(None if st.value is None else ev(st.value, env))
         elif isinstance(st, (ast.Expr, ast.Pass)):
             continue
         else:
             raise Unknown(type(st).__name__)
     return env
+
+
+class Returned(Exception):
+    def __init__(self, value):
+        self.value = value
+
+
+def call(fnode, env):
+    """interpret the body of a small function over sample arguments (env);
+    returns (value, env)"""
+    body = [s for s in fnode.body
+            if not (isinstance(s, ast.Expr) and
+                    isinstance(s.value, ast.Constant))]
+    try:
+        run(body, env)
+    except Returned as r:
+        return r.value, env
+    return None, env
